@@ -61,6 +61,11 @@ class PathInfo:
             t = n.term
             if t["k"] == "call" and t["dest"]["l"] == 0 and not t["dest"]["p"]:
                 val = S.resolve_call_value(root, n.bb)
+        if val is not None and _mentions_inlined_ret(S, val):
+            # the result of an expanded loop-free helper with several return values: the value it returns on this very path
+            v2 = SymExec(S, self.path).retval
+            if v2 is not None and not _mentions(v2, ("phi",)):
+                return v2
         return val
 
     def describe(self):
